@@ -231,7 +231,7 @@ fn gen_case(seed: u64, i: usize, rng: &mut Rng) -> (String, Vec<String>) {
         vec!["rrdp".into(), "rrdp".into(), "rrdp".into(), "rrdp".into(), "rrdp".into(), "rrdp".into()],
         vec!["reposync a".into(), "rrdp".into(), "reposync b".into(), "rrdp".into(), "reposync c".into(), "rrdp".into()],
     ];
-    if i % 3 == 2 {
+    if rng.below(3) == 0 {
         // command histories (history cache on, as in the daemon's default configuration) while
         // the same CA is deleted and others are busy
         ops.extend(["ca d".to_string(), "child ta d 9".into(), "pump".into(), "roa d +9:v4:9.0/24".into(), "pump".into()]);
